@@ -14,7 +14,7 @@ META = {
             'Lean printer (exact text), parse_X(print_X(obj)) compared field by field with obj and with the Lean parser; regular '
             'expressions: both concrete syntaxes re-parsed (tree equality for the parenthesised syntax; same language on words <=4 and same '
             'printed form for the simple syntax); simple-format grammars re-parsed to an equal grammar; non-trivial = object with >=2 '
-            'states and >=1 transition / expression with a nested operator; distinct by content',
+            'states and >=1 transition / expression with a nested operator; distinct by content; also DFAs / NFAs with set names {..} and pair names (p,q) re-read with the matching state_regex, PDA / TM marker symbols % & ! ~ ^ *',
     'assumptions': ['state names match \\w+ and are not keywords of the same format; ASCII symbols plus ε, □',
                     'the ANTLR-generated regexp parsers are tied by correspondence only (no Lean model)'],
     'trusted_base': ['Lean: Gamba/Model/Parse.lean is the model of parser and printers'],
